@@ -4,6 +4,7 @@ Generic check for the execution properties C01–C05, C07–C12.
 import copy
 import json
 import os
+import random
 import time
 
 import core
@@ -144,6 +145,45 @@ def run(chk):
     all_dis += d
     all_fail += f
     stats["multi_asset_stream_cases"] = len(cases_m)
+
+    # 2d. poisoned leaves: one account anywhere in the script replaced by an unbound variable, or one cap (`max [A n]`) given
+    # another asset. Wherever that leaf is evaluated the run must fail with that error; where it is never reached the
+    # run is the original one. (The model decides which; for C12 the dichotomy itself is also checked.)
+    import re as _re
+    prng = random.Random("poison-%s-%d" % (pid, seed))
+    cases_p, origin_p = [], []
+    for c, o in list(zip(cases, gos))[: max(300, n // 3)]:
+        if "go" not in o or o.get("parseErrors"):
+            continue
+        accts = [m for m in _re.finditer(r"@[A-Za-z_][A-Za-z0-9_:]*", c["script"])]
+        caps = [m for m in _re.finditer(r"max \[([A-Z][A-Z0-9]*(?:/[0-9]+)?) ", c["script"])]
+        if accts and (not caps or prng.random() < 0.7):
+            m = prng.choice(accts)
+            txt = c["script"][:m.start()] + "$nope" + c["script"][m.end():]
+        elif caps:
+            m = prng.choice(caps)
+            txt = c["script"][:m.start(1)] + "ZZZ" + c["script"][m.end(1):]
+        else:
+            continue
+        cases_p.append(dict(c, id=8_000_000 + len(cases_p), script=txt))
+        origin_p.append(o["go"])
+    if cases_p:
+        gos_p = runner.run_go(cases_p)
+        models_p = P.run_model(cases_p, gos_p)
+        d, f = evaluate(chk, pid, cases_p, [None] * len(cases_p), gos_p, models_p, stats, samples)
+        all_dis += d
+        all_fail += f
+        stats["poisoned_leaf_cases"] = len(cases_p)
+        if pid == "C12":
+            for c, o, g0 in zip(cases_p, gos_p, origin_p):
+                go = o.get("go")
+                if not go:
+                    continue
+                same = all(go.get(k) == g0.get(k) for k in ("outcome", "errKind", "errPayload", "postings"))
+                poisoned = go["outcome"] == "err" and go.get("errKind") in ("UnboundVariableErr", "MismatchedCurrencyError")
+                if not same and not poisoned:
+                    all_fail.append((c, go, None, ["a leaf that cannot be evaluated ($nope is unbound / ZZZ is another asset) neither failed the run nor was skipped: "
+                                                   "the run differs from the run of the unpoisoned script (%s %s)" % (g0.get("outcome"), g0.get("errKind"))]))
 
     # 3. property-specific sub-checks on the real code
     extra = EXTRAS.get(pid)
@@ -419,7 +459,7 @@ def concurrent_runs(chk, cases, gos, stats):
         stats["race_build"] = "failed: " + str(e)[:200]
         return fails
     sub = [dict(c, id=i, op="concurrent", store="static", goroutines=8, perStmt=False) for i, c in enumerate(cases[:chk.size(400, 3000)])]
-    outs = runner.run_go(sub, binary=racebin)
+    outs = runner.run_go(sub, binary=racebin, race=True)
     stats["concurrent_runs"] = len(sub) * 8
     for c, o in zip(sub, outs):
         if o.get("harnessCrash") or o.get("race") or o.get("diffs"):
